@@ -688,6 +688,16 @@ class ImplFeat(ImplViews):
             return "raise"
         return "ok"
 
+    def cmd_funsubk(self, ts):
+        """unsubscribe the first subscribed observer of the given kind"""
+        self._sync_heap()
+        cls = FKINDS[ts[0]]
+        for sub in self.dispatcher.subscribers:
+            if type(sub) is cls:
+                self.dispatcher.unsubscribe(sub)
+                return str(self._fid(sub))
+        return "none"
+
     def cmd_fsnap(self, ts):
         self._sync_heap()
         ids = [str(self._fid(s)) for s in self.dispatcher.subscribers]
